@@ -327,6 +327,113 @@ def check_stream_helper(rep, prog, u, stats):
                         rep.add('R-stream-consume', st, HOLDS, fn.loc)
 
 
+
+# ---- R-sync: upipe_ts_sync on every cutting of a stream (stub-parsed unit, ghost block machine) ---------------
+
+U_SYNC = 'lib/upipe-ts/upipe_ts_sync.c'
+
+
+def sync_streams(P):
+    """streams of concrete sync octets and symbolic payload; P is the packet size used in the domain"""
+    from upv import tsref
+    def pkt(tag):
+        return [0x47] + tsref.payload_tokens(tag, P - 1)
+    junk = tsref.payload_tokens('j', 2)
+    emu = [0x47] + tsref.payload_tokens('e', P - 1) + [0x47] + tsref.payload_tokens('f', 1)     # a sync octet followed by exactly one more at +P
+    return {
+        'clean': pkt('a') + pkt('b') + pkt('c') + pkt('d'),
+        'lead-junk': junk + pkt('a') + pkt('b') + pkt('c'),
+        'loss': pkt('a') + pkt('b') + junk + pkt('c') + pkt('d') + pkt('g'),
+        'emulation': pkt('a') + pkt('b') + pkt('m') + tsref.payload_tokens('k', 1) + emu + tsref.payload_tokens('l', 1) + pkt('c') + pkt('d') + pkt('g') + pkt('h'),
+        'emulation2': pkt('a') + pkt('b') + pkt('m') + tsref.payload_tokens('k', 3) + emu + tsref.payload_tokens('l', 2) + pkt('c') + pkt('d') + pkt('g'),
+    }
+
+
+def check_ts_sync(rep, repo, tier):
+    from upv import ghost
+    if not facts.have_stubs():
+        rep.notes.append('stub headers absent: upipe_ts_sync not analysed')
+        return
+    prog = facts.load_with_stubs([], [U_SYNC], repo=repo, tolerate=False)
+    u = prog.units[U_SYNC]
+    for n in ('upipe_ts_sync_input', 'upipe_ts_sync_check', 'upipe_ts_sync_flush'):
+        if n not in u.funcs:
+            raise facts.AnalysisBroken('anchor vanished: %s' % n)
+    rep.units.append(U_SYNC + ' (parsed against stubs/bitstream)')
+    rep.rule('R-sync', 'upipe_ts_sync_input (+ check, flush and the generated uref_stream functions) interpreted on ghost block buffers for packet size 4, '
+             'ts_sync 2 and 3, four streams (clean, leading junk, loss of sync, a sync-octet emulation followed by exactly one more at +size), each fed '
+             'uncut and cut into two buffers at every position (and into 1-, 2-, 3-octet slices), then flushed: every unit output has the packet size and '
+             'starts with the sync octet; the units are disjoint, in-order pieces of the input (by token identity); and the sequence of units is the same '
+             'for every cutting as for the uncut stream')
+    P = 4
+    fin = u.funcs['upipe_ts_sync_input']
+    ffl = u.funcs['upipe_ts_sync_flush']
+    INL = ('upipe_ts_sync_check', 'upipe_ts_sync_flush', 'upipe_ts_sync_append_uref_stream', 'upipe_ts_sync_consume_uref_stream',
+           'upipe_ts_sync_extract_uref_stream', 'upipe_ts_sync_clean_uref_stream', 'upipe_ts_sync_init_uref_stream', 'upipe_ts_sync_sync_')
+    nruns = 0
+    for ts_sync in (2, 3):
+        for sname, stream in sorted(sync_streams(P).items()):
+            N = len(stream)
+            cuttings = [[N]] + [[c, N - c] for c in range(1, N)]
+            for k in (1, 2, 3):
+                cuttings.append([k] * (N // k) + ([N % k] if N % k else []))
+            ref = None
+            for cutting in cuttings:
+                nruns += 1
+                inst = 'ts_sync=%d,%s,cut=%s' % (ts_sync, sname, '+'.join(map(str, cutting)) if len(cutting) < 5 else '%dx%d' % (len(cutting), cutting[0]))
+                what = None
+                try:
+                    m = ghost.BlockMachine(prog, u, 'upipe_ts_sync', {'ts_sync': ts_sync, 'output_size': P, 'acquired': 0, 'next_uref': ('null',),
+                                                                    'next_uref_size': 0}, inline=INL)
+                    m.max_steps = 400000
+                    m.max_depth = 8
+                    m.output_fns = {'upipe_ts_sync_output'}
+                    m.make_list(m.head('upipe_ts_sync', 'urefs'), [])
+                    pos = 0
+                    for ln in cutting:
+                        ur = m.new_uref(stream[pos:pos + ln])
+                        pos += ln
+                        m.steps = 0
+                        m.run(fin, [PIPE_S, ur, ('null',)])
+                    m.steps = 0
+                    m.run(ffl, [PIPE_S, ('null',)])
+                    outs = [e[2] for e in m.events if e[0] == 'output']
+                    # shape of the units
+                    p0 = 0
+                    for o in outs:
+                        if o is None or len(o) != P or o[0] != 0x47:
+                            what = 'a unit of %d octets starting with %r is output (packet size %d, sync 0x47)' % (len(o or []), (o or [None])[0], P)
+                            break
+                        # in-order, disjoint piece of the input
+                        idx = next((i for i in range(p0, N - P + 1) if stream[i:i + P] == o), None)
+                        if idx is None:
+                            what = 'a unit is output that is not a piece of the input following the previous unit'
+                            break
+                        p0 = idx + P
+                    if not what:
+                        lu, lb = m.leaked()
+                        if lu or lb:
+                            what = 'after the flush urefs %s / buffers %s are neither output nor freed' % (lu, lb)
+                    if not what:
+                        if ref is None:
+                            ref = outs
+                        elif outs != ref:
+                            what = 'the units output depend on the cutting: %d units here, %d for the uncut stream (first difference at unit %d)' % (
+                                len(outs), len(ref), next((i for i, (a, b) in enumerate(zip(outs, ref)) if a != b), min(len(outs), len(ref))))
+                except Finding as f:
+                    what = str(f)
+                except PathEnd:
+                    what = 'an assert() fails'
+                except Undecided as e:
+                    rep.add('R-sync', inst, UNDECIDED, fin.loc, why=str(e))
+                    continue
+                rep.add('R-sync', inst, VIOLATED if what else HOLDS, fin.loc, **({'what': what} if what else {}))
+    rep.tables['R-sync'] = {'abstract_runs': nruns}
+
+
+PIPE_S = ('obj', 'pipe')
+
+
 def run(tier='quick', repo=None):
     repo = repo or facts.REPO
     rep = Report(PROP, tier)
@@ -463,4 +570,5 @@ def run(tier='quick', repo=None):
     ownrule.run_own(rep, prog, local_functions=False)
     rep.assumptions = ['contract of the uref_stream helper: append adds the octets of the buffer, extract(n) removes and returns n octets, next_uref is non-NULL exactly while octets are pending',
                        'configuration values beyond the enumerated ranges behave alike (the code only compares and does integer division on them)']
+    check_ts_sync(rep, repo, tier)
     return rep
